@@ -738,7 +738,62 @@ fn judge_stray(idx: u64, t: &mut Tally) {
 
 // ---------------------------------------------------------------------------------------------
 
+/// "taken from the first keyframe": with rejected attempts before it and differently configured
+/// keyframes after it, the sample entry must equal the one of the history holding only the first
+/// *accepted* keyframe (differential oracle; the generator varies the carried configuration).
+fn judge_cfg_history(codec: VCodec, manner: usize, va: u8, vb: u8, vc: u8, order: (u64, u64), t: &mut Tally) {
+    use oracle::frames::video_frame_variant;
+    let fr = |tag: u32, v: u8| Bytes::new(video_frame_variant(codec, true, true, tag, 5, v).0);
+    let big = (2147483648.0 + 4500.0) / 90000.0;
+    let a = match manner {
+        0 => Some(Op::WV { pts: T(-1.0), data: fr(1, va), key: true }),
+        1 => Some(Op::WV { pts: T(f64::NAN), data: fr(1, va), key: true }),
+        2 => Some(Op::WVD { pts: T(big), dts: T(0.0), data: fr(1, va), key: true }),
+        3 => Some(Op::WV { pts: T(0.0), data: fr(1, va), key: false }),
+        4 => Some(Op::WVD { pts: T(0.0), dts: T(f64::INFINITY), data: fr(1, va), key: true }),
+        5 => Some(Op::WVD { pts: T(0.0), dts: T(big), data: fr(1, va), key: true }),
+        _ => None,
+    };
+    let b = Op::WV { pts: T(0.5), data: fr(2, vb), key: true };
+    let c = Op::WV { pts: T(1.0), data: fr(3, vc), key: true };
+    let mut ops: Vec<Op> = a.into_iter().collect();
+    ops.push(b);
+    ops.push(c);
+    let cfg = Cfg::basic(codec, None, (va + vb) % 2 == 0);
+    let ex = run_finished(&cfg, &ops);
+    t.evaluations += 1;
+    let case = || json!({"engine": "E2-c07-history", "codec": codec, "manner": manner, "variants": [va, vb, vc]});
+    if let Some((i, m)) = ex.panicked() {
+        t.violation("C07/history/panic", order, || format!("{codec:?}: call {i} panicked: {m}"), case);
+        return;
+    }
+    let Some(first_ok) = (0..ops.len()).find(|&i| ex.results[i].is_ok()) else {
+        t.count("history_all_rejected", 1);
+        return;
+    };
+    if first_ok > 0 {
+        t.count("history_with_rejected_first_attempt", 1);
+    }
+    if !ex.results.last().unwrap().is_ok() {
+        t.violation("C07/history/finish-failed", order, || format!("{codec:?} manner {manner}: finish failed: {}", ex.results.last().unwrap().brief()), case);
+        return;
+    }
+    // reference: the first accepted keyframe alone (timestamps do not enter the sample entry)
+    let alone = run_finished(&cfg, &ops[first_ok..first_ok + 1]);
+    let (m1, m2) = (parse_movie(&ex.bytes, "prog"), parse_movie(&alone.bytes, "prog"));
+    match (first_entry(&m1, true), first_entry(&m2, true)) {
+        (Some(e1), Some(e2)) => {
+            t.outcome(oracle::report::h64(&e1.raw) ^ manner as u64);
+            if e1.raw != e2.raw {
+                t.violation("C07/history/config-not-from-first-accepted-keyframe", order, || format!("{codec:?}: history [{}] yields sample entry {:?}; its first accepted keyframe alone yields {:?}", oracle::model::brief_ops(&ops), e1.cfg, e2.cfg), case);
+            }
+        }
+        (x, y) => t.violation("C07/history/no-sample-entry", order, || format!("{:?} / {:?}", x.is_some(), y.is_some()), case),
+    }
+}
+
 enum Item {
+    History(VCodec),
     Nal(VCodec, Vec<Vec<usize>>),
     Av1(Vec<SeqHdr>, bool),
     Vp9(Vec<Vp9Hdr>),
@@ -811,6 +866,9 @@ pub fn check(ctx: &Ctx) -> i32 {
     let n_init = inits.len();
     items.push(Item::Init(inits));
     items.push(Item::Stray);
+    for &codec in &oracle::frames::VCODECS {
+        items.push(Item::History(codec));
+    }
 
     let tally = par_items(&items, ctx.seed, |idx, it, t| match it {
         Item::Nal(codec, lists) => {
@@ -853,6 +911,19 @@ pub fn check(ctx: &Ctx) -> i32 {
             }
         }
         Item::Stray => judge_stray(idx as u64, t),
+        Item::History(codec) => {
+            let mut k = 0u64;
+            for manner in 0..7 {
+                for va in 0..4u8 {
+                    for vb in 0..4u8 {
+                        for vc in 0..4u8 {
+                            k += 1;
+                            judge_cfg_history(*codec, manner, va, vb, vc, (idx as u64, k), t);
+                        }
+                    }
+                }
+            }
+        }
     });
     let mut tally = tally;
     tally.sample(3, || json!({"av1_header_example": format!("{:?}", SeqHdr::default().normalised()), "payload": hex(&SeqHdr::default().normalised().payload())}));
@@ -862,7 +933,7 @@ pub fn check(ctx: &Ctx) -> i32 {
         &tally,
         Meta {
             level: "exploration",
-            rule: format!("H.264/H.265: every first keyframe that is a sequence of <= {max_units} NAL units over {{SPSa, SPSb, PPSa, PPSb, (VPSa, VPSb), IDR, SEI, AUD, non-IDR}} x 8 framings (start-code phase, leading garbage, trailing zeros), muxed, finished, and the avcC/hvcC compared with the first parameter sets; AV1: {n_av1} syntactically valid sequence headers produced by a spec-5.5 bit writer (branch product of the header syntax{}) x {LAYOUTS} OBU layouts through extract_av1_config, and through muxer+finish+reader for {}; VP9: {n_vp9} headers of the accepted form; audio: {n_audio} (codec, rate, channels) combinations; fragmented init segments: {n_init} builder/FragmentConfig combinations (parameter-set lengths 1, 4, 255, 256; three dimensions). Expected values are known by construction (the generator wrote them). Distinct by the resulting sample entry bytes.", if ctx.thorough { ", full product" } else { ", every pair of sections in full product" }, if ctx.thorough { "every header" } else { "a section-default subset" }),
+            rule: format!("H.264/H.265: every first keyframe that is a sequence of <= {max_units} NAL units over {{SPSa, SPSb, PPSa, PPSb, (VPSa, VPSb), IDR, SEI, AUD, non-IDR}} x 8 framings (start-code phase, leading garbage, trailing zeros), muxed, finished, and the avcC/hvcC compared with the first parameter sets; AV1: {n_av1} syntactically valid sequence headers produced by a spec-5.5 bit writer (branch product of the header syntax{}) x {LAYOUTS} OBU layouts through extract_av1_config, and through muxer+finish+reader for {}; VP9: {n_vp9} headers of the accepted form; audio: {n_audio} (codec, rate, channels) combinations; fragmented init segments: {n_init} builder/FragmentConfig combinations (parameter-set lengths 1, 4, 255, 256; three dimensions); histories: per codec 7 kinds of first attempt (negative, NaN, overflowing composition offset, not a keyframe, infinite DTS, PTS far before DTS, none) x 4^3 configuration variants for (attempt, next keyframe, later keyframe), sample entry compared with the one of the first accepted keyframe alone. Expected values are known by construction (the generator wrote them). Distinct by the resulting sample entry bytes.", if ctx.thorough { ", full product" } else { ", every pair of sections in full product" }, if ctx.thorough { "every header" } else { "a section-default subset" }),
             bound: format!("<= {max_units} NAL units per keyframe; AV1 field domains as listed in DESIGN.md"),
             exhaustive: true,
             assumptions: vec!["the AV1 bit writer (oracle/src/frames.rs) follows AV1 spec 5.5; it is the source of truth for expected fields".into(), "vpcC values are judged positionally when the record is in muxide's 8-byte layout (the layout itself is C19's finding)".into()],
@@ -887,6 +958,11 @@ pub fn replay(case: &Value) -> i32 {
                 o => println!("outcome: {:?}", o.map(|x| x.is_some())),
             }
             judge_nal_frame(codec, &units, 0, (0, 0), &mut t);
+        }
+        Some("E2-c07-history") => {
+            let codec: VCodec = serde_json::from_value(case["codec"].clone()).unwrap();
+            let v: Vec<u8> = serde_json::from_value(case["variants"].clone()).unwrap();
+            judge_cfg_history(codec, case["manner"].as_u64().unwrap() as usize, v[0], v[1], v[2], (0, 0), &mut t);
         }
         Some("E2-c07-av1") => {
             let frame = unhex("frame");
